@@ -137,14 +137,19 @@ fn assoc_find(
     alist: &TulispObject,
     mut testfn: impl FnMut(&TulispObject, &TulispObject) -> Result<bool, Error>,
 ) -> Result<TulispObject, Error> {
-    // Elements that are not cons cells are ignored.
-    if alist.car()?.consp() && alist.caar_and_then(|caar| testfn(&caar, key))? {
-        return alist.car();
+    // Walks the list in a loop: a long alist must not use one stack frame per
+    // element.
+    let mut rest = alist.clone();
+    loop {
+        // Elements that are not cons cells are ignored.
+        if rest.car()?.consp() && rest.caar_and_then(|caar| testfn(&caar, key))? {
+            return rest.car();
+        }
+        if !rest.consp() {
+            return Ok(TulispObject::nil());
+        }
+        rest = rest.cdr()?;
     }
-    if alist.consp() {
-        return alist.cdr_and_then(|cdr| assoc_find(key, cdr, testfn));
-    }
-    Ok(TulispObject::nil())
 }
 
 /// Returns the value of the property `property` stored in the property list
@@ -153,13 +158,17 @@ fn assoc_find(
 /// Read more about `plist`s
 /// [here](https://www.gnu.org/software/emacs/manual/html_node/elisp/Property-Lists.html).
 pub fn plist_get(plist: &TulispObject, property: &TulispObject) -> Result<TulispObject, Error> {
-    if plist.car_and_then(|car| Ok(car.eq(property)))? {
-        return plist.cadr();
-    };
-    if plist.consp() {
-        return plist.cddr_and_then(|cddr| plist_get(cddr, property));
+    // Walks the list in a loop, see `assoc_find`.
+    let mut rest = plist.clone();
+    loop {
+        if rest.car_and_then(|car| Ok(car.eq(property)))? {
+            return rest.cadr();
+        };
+        if !rest.consp() {
+            return Ok(TulispObject::nil());
+        }
+        rest = rest.cddr()?;
     }
-    Ok(TulispObject::nil())
 }
 
 #[cfg(test)]
